@@ -17,7 +17,7 @@ RULE = ("revolute / prismatic unit twists in 3D (axis direction x length 1e-3..1
         "of the axis fixed by exp(theta S), rotation = reference Rodrigues(unit axis, theta), prismatic = translation "
         "theta*unit direction, pitch/pole/line/theta()/isprismatic, se(n) form, inverse and scalar multiples consistent "
         "with exp.  Non-trivial: axis not a coordinate axis, q != 0, theta != 0.")
-RULE = RULE + probes.RULE_TEXT + (probes.AUG_TEXT if PROPERTY_ID in probes.AUG_PROPS else "") + probes.VARIANT_TEXT
+RULE = RULE + probes.RULE_TEXT + (probes.AUG_TEXT if PROPERTY_ID in probes.AUG_PROPS else "") + probes.VARIANT_TEXT + probes.OWN_TEXT
 ASSUMPTIONS = ["tolerance 1e-9*max(1,|q|)", "pitch argument of Revolute, isrevolute and isunit are not in the statement"]
 
 TWO_PI = 2 * math.pi
@@ -82,10 +82,78 @@ def _pose(c, site, X, cls, n=1):
     return [np.asarray(a, dtype=float) for a in X.data]
 
 
+ELT = ["float", "int", "f16", "f32", "f64", "i8", "i16", "i32", "i64", "u8", "u16"]
+_ELT = {"float": float, "int": int, "f16": np.float16, "f32": np.float32, "f64": np.float64, "i8": np.int8, "i16": np.int16, "i32": np.int32,
+        "i64": np.int64, "u8": np.uint8, "u16": np.uint16}
+
+
+def s_thetatype():
+    """angles in degrees that every element type in the list holds exactly: the element type of theta must not matter"""
+    whole = st.integers(0, 120)        # also fits int8 / uint8
+    half = st.integers(-240, 240).map(lambda k: k * 0.5)
+    return st.fixed_dictionaries({"kind": st.just("thetatype"), "dim": st.sampled_from([3, 2]), "a": gens.axis3(-1, 1), "q": points(3),
+                                  "whole": st.lists(whole, min_size=1, max_size=4), "half": st.lists(half, min_size=1, max_size=4),
+                                  "elts": st.lists(st.sampled_from(ELT), min_size=4, max_size=4),
+                                  "container": st.sampled_from(["scalar", "list", "tuple", "array", "mixedlist", "mixedtuple"])})
+
+
+def _thetatype(case):
+    c = Checker("thetatype", container=case["container"], dim=case["dim"])
+    a, q = refs.unit(arr(case["a"])), arr(case["q"])
+    if case["dim"] == 3:
+        okS, S = c.lib("UnitRevolute", L.Twist3.Revolute, a, q)
+        cls = L.SE3
+    else:
+        okS, S = c.lib("UnitRevolute", L.Twist2.Revolute, q[:2])
+        cls = L.SE2
+    if not okS:
+        return c.out
+    cont = case["container"]
+    elts = case["elts"]
+    floaty = lambda e: e in ("float", "f16", "f32", "f64")   # noqa
+    vals = case["half"] if all(floaty(e) for e in (elts[:1] if not cont.startswith("mixed") else elts)) and cont != "mixedlist_" else None
+    if cont.startswith("mixed"):
+        # one sequence holding several element types
+        base_vals = case["whole"] if not all(floaty(e) for e in elts) else case["half"]
+        plain = [float(v) for v in base_vals]
+        typed = [_ELT[elts[i % 4]](v) for i, v in enumerate(base_vals)]
+        arg = list(typed) if cont == "mixedlist" else tuple(typed)
+        c.feat(elts="+".join(elts[:len(base_vals)]))
+    else:
+        e = elts[0]
+        base_vals = case["half"] if floaty(e) else case["whole"]
+        plain = [float(v) for v in base_vals]
+        c.feat(elts=e)
+        if cont == "scalar":
+            plain = plain[:1]
+            arg = _ELT[e](base_vals[0])
+        elif cont == "array":
+            arg = np.array(base_vals, dtype=_ELT[e]) if e not in ("float", "int") else np.array(base_vals, dtype=float if e == "float" else int)
+        else:
+            arg = [_ELT[e](v) for v in base_vals]
+            arg = arg if cont == "list" else tuple(arg)
+    ok, X = c.lib("exp/deg/typed", S.exp, arg, "deg")
+    ok2, Y = c.lib("exp/deg/plain", S.exp, plain[0] if cont == "scalar" else plain, "deg")
+    if ok and ok2:
+        A, B = _pose(c, "exp/deg/typed", X, cls, len(plain)), _pose(c, "exp/deg/plain", Y, cls, len(plain))
+        if A and B:
+            qs = max(1.0, float(np.max(np.abs(q))))
+            for Ai, Bi, t in zip(A, B, plain):
+                c.eq("exp/deg/typed=plain", Ai, Bi, 1e-12, qs)
+                th = math.radians(t)
+                if case["dim"] == 3:
+                    R = refs.rodrigues(a, th)
+                    c.eq("exp/deg/typed/value", Ai, refs.rt(R, q - R @ q), 1e-9, qs)
+                else:
+                    R = np.array([[math.cos(th), -math.sin(th)], [math.sin(th), math.cos(th)]])
+                    c.eq("exp/deg/typed/value", Ai, refs.rt(R, q[:2] - R @ q[:2]), 1e-9, qs)
+    return c.out
+
+
 def check_case(case):
-    if case.get("kind") in ("hist", "aug", "variant"):
+    if case.get("kind") in ("hist", "aug", "variant", "own"):
         return probes.run(case, PROPERTY_ID)
-    return {"rev3": _rev3, "pris3": _pris3, "rev2": _rev2, "pris2": _pris2}[case["kind"]](case)
+    return {"thetatype": _thetatype, "rev3": _rev3, "pris3": _pris3, "rev2": _rev2, "pris2": _pris2}[case["kind"]](case)
 
 
 def _rev3(case):
@@ -219,6 +287,10 @@ def _rev3(case):
                         for Ai, (ax_, qq_, t_) in zip(A, ((ah, q, t2[0]), (a2, q2, t2[1]))):
                             R = refs.rodrigues(ax_, t_)
                             c.eq("multi/exp/%s/value" % unit, Ai, refs.rt(R, qq_ - R @ qq_), tol, max(qs, float(np.max(np.abs(qq_)))))
+            # angle vectors of any other length are rejected, not truncated or padded
+            for bad in ([th], [th, 0.2, 0.3], [th, 0.2, 0.3, 0.4], (th, 0.1, 0.2, 0.3, 0.4)):
+                for unit in ("rad", "deg"):
+                    c.must_raise("multi/exp/wrong_length", M2.exp, bad, unit)
             okl, Lm = c.lib("multi/line", M2.line)
             if okl and c.true("multi/line/len", hasattr(Lm, "data") and len(Lm) == 2, "line() of two twists gave %r" % (Lm,)):
                 for i, (ax_, qq_) in enumerate(((ah, q), (a2, q2))):
@@ -288,6 +360,20 @@ def _pris3(case):
         if A:
             for Ai, t in zip(A, ths):
                 c.eq("exp/vector/value", Ai, refs.rt(np.eye(3), t * ah), tol, max(1.0, abs(t)))
+    # whatever the unit option means for a translation, a vector of thetas gives the same poses as the scalars one by one
+    import contextlib
+    import io
+    with contextlib.redirect_stdout(io.StringIO()):
+        okv, Xv = c.lib("exp/vector/deg", S.exp, list(ths), "deg")
+        if okv:
+            A = _pose(c, "exp/vector/deg", Xv, L.SE3, len(ths))
+            if A:
+                for Ai, t in zip(A, ths):
+                    oks, Xs = c.lib("exp/scalar/deg", S.exp, t, "deg")
+                    if oks:
+                        As = _pose(c, "exp/scalar/deg", Xs, L.SE3)
+                        if As:
+                            c.eq("exp/vector/deg=scalar/deg", Ai, As[0], tol, max(1.0, abs(t)))
     return c.out
 
 
@@ -414,10 +500,14 @@ def _pris2(case):
 
 
 def classify(case):
-    if case.get("kind") in ("hist", "aug", "variant"):
+    if case.get("kind") in ("hist", "aug", "variant", "own"):
         return probes.classify(case)
     k = case["kind"]
     lab = {"kind:" + k: True}
+    if k == "thetatype":
+        lab["nontrivial"] = True
+        lab["container:" + case["container"]] = True
+        return lab
     th = case["theta"]
     if k == "rev3":
         noncoord = sum(1 for x in case["a"] if abs(x) > 1e-3 * max(abs(y) for y in case["a"])) >= 2
@@ -439,5 +529,6 @@ def subchecks(tier):
         Sub("pris3", strategy=s_pris3(), n=(400, 8000), shards=(2, 8)),
         Sub("rev2", strategy=s_rev2(), n=(400, 8000), shards=(4, 8)),
         Sub("pris2", strategy=s_pris2(), n=(400, 8000), shards=(2, 4)),
+        Sub("theta_element_types", strategy=s_thetatype(), n=(500, 6000), shards=(2, 4)),
         *probes.subs(PROPERTY_ID),
     ]
